@@ -526,6 +526,16 @@ func genUDP(rn *runner, r *vc.Rand, thorough bool) {
 		rn.add(udpLine("eof", []string{d, "6162"}, "hold", false, []string{d, "63"}, uncut, "-", []int{1, 1, 1}, "utut"), "udp:size-boundary")
 		rn.add(udpLine("hold", nil, "eof", false, []string{d, "63"}, 2+sz-1, "-", []int{2, sz / 2}, ""), "udp:size-boundary")
 	}
+	for k := 3; k <= 15; k++ {
+		for d := -2; d <= 2; d++ {
+			sz := (1 << k) + d
+			if !thorough && d != 0 && d != -2 && k > 8 && k != 11 {
+				continue
+			}
+			dd := fmt.Sprintf("z%dx%d", sz, 1+(k*5+d+2)%200)
+			rn.add(udpLine("eof", []string{dd, "6162"}, "eof", false, []string{dd, "63"}, uncut, "-", nil, "uutt"), "udp:size-edge")
+		}
+	}
 	// 65536-byte and longer datagrams cannot be carried (the length does not fit the prefix): outside WF, replayed to decide
 	rn.add(udpLine("eof", []string{"z65536x3"}, "hold", false, nil, uncut, "-", nil, ""), "udp:outside-wf")
 	rn.add(udpLine("eof", []string{"z65537x3", "61"}, "hold", false, nil, uncut, "-", nil, ""), "udp:outside-wf")
@@ -818,6 +828,25 @@ func genS5(rn *runner, r *vc.Rand, thorough bool) {
 		rn.add(s5Line("eof", []string{"6162", d, "63", d}, uncut, nil), "s5:burst")
 		rn.add(s5Line("err", []string{d, "6162"}, uncut, []int{2 + sz + 1}), "s5:burst")
 		rn.add(s5Line("eof", []string{d, "6162"}, 2+sz+3, []int{1, sz}), "s5:burst")
+	}
+	// (2b) payload sizes around every power of two and the usual buffer / MTU sizes (scratch-buffer limits, off-by-one
+	// and off-by-header guards): the datagram of that size is followed by a short one, so a lost or extra byte desynchronises
+	var edge []int
+	for k := 3; k <= 16; k++ {
+		for d := -3; d <= 3; d++ {
+			if v := (1 << k) + d; v >= 1 && v <= 65535 {
+				edge = append(edge, v)
+			}
+		}
+	}
+	edge = append(edge, 1200, 1350, 1400, 1470, 1471, 1472, 1473, 1498, 1499, 1500, 1501, 8998, 9000, 65505, 65506, 65507)
+	for i, sz := range edge {
+		if !thorough && sz > 5000 && (sz%4096 != 0 && sz != 65535 && sz != 65507) {
+			continue // quick: exact limits only for the big sizes
+		}
+		d := fmt.Sprintf("z%dx%d", sz, 1+i%200)
+		rn.add(s5Line("eof", []string{d, "6162"}, uncut, nil), "s5:size-edge")
+		rn.add(s5Line("err", []string{"63", d, d, "64"}, uncut, []int{3 + 2 + sz + 1}), "s5:size-edge")
 	}
 	// (3) random bursts and partitions
 	rounds := 300
